@@ -79,11 +79,12 @@ EXTRA = {
  "C03": " Extension `account-guards`: the example account's self-administration entry points (add/remove rule, signer, policy, rename, valid_until, execute, upgrade) under six authorization variants (rows of the C06 guard audit for this example).",
  "C04": " Extension: the `real-idv` sub-check wires the token to the library's real identity stack (IdentityVerifier, claim topics and issuers, identity registry storage) and includes recover_identity / recover_balance histories (registered recovery target, whole balance with freeze status carried) and a second compliance module.",
  "C05": " The Totals probe also checks the documented max_deposit / max_mint constants and the share decimals (underlying decimals + offset).",
- "C06": " Extensions: low-level role clean-up operations (remove_role_admin / remove_role_accounts_count) in the acl history; the guard macros stacked with pause guards (principal half); `example-guards`, a table-driven audit of 60 guarded entry points of 17 example contracts under six authorization variants (run only under the exact entry of the rightful principal; refused calls leave no trace; the exact entry succeeds).",
+ "C06": " Extensions: low-level role clean-up operations (remove_role_admin / remove_role_accounts_count) and seed_role (grant_role_no_auth over lists with duplicates) in the acl history, a role named by the empty symbol in the role universe; the guard macros stacked with pause guards (principal half); `example-guards`, a table-driven audit of 60 guarded entry points of 17 example contracts under six authorization variants (run only under the exact entry of the rightful principal; refused calls leave no trace; the exact entry succeeds).",
+ "C08": " The hash probe also tells predecessor from salt (all-zero \"none\" values and exchanged fields hash differently).",
  "C09": " Extension: the example's getter entry points (state, exists/pending/ready/done, ready ledger, min delay) are compared with the model's timelock state machine after every step (`getters`) and at the end of every history.",
- "C12": " Extension `wad-api`: every remaining public function and operator of the Wad type (integer / token-amount / price conversions, checked_add/sub, *_int, abs, min/max, ordering, Add/Sub/Mul/Div/Neg) against the BigInt reference per documented formula, panicking variants failing exactly when the checked ones report no value (undocumented corners counted, not asserted).",
+ "C12": " checked_pow of an integer base is exact. Extension `wad-api`: every remaining public function and operator of the Wad type (integer / token-amount / price conversions, checked_add/sub, *_int, abs, min/max, ordering, Add/Sub/Mul/Div/Neg) against the BigInt reference per documented formula, panicking variants failing exactly when the checked ones report no value (undocumented corners counted, not asserted).",
  "C15": " Extension `claim-data-codec`: encode_claim_data_expiration / decode_claim_data_expiration / is_claim_expired against the documented byte layout and refusals, ledger timestamps around valid_until.",
- "C16": " Extensions: supply cap lowered below the supply (`cap-resettable`); only_owner / only_admin / only_role stacked with when_not_paused / when_paused in both orders (`stacked-guards`).",
+ "C16": " Extensions: a positive mint within the cap must succeed; supply cap lowered below the supply (`cap-resettable`); only_owner / only_admin / only_role stacked with when_not_paused / when_paused in both orders (`stacked-guards`).",
  "C17": " Corruptions include proofs extended to 31/32/33/40 elements (the positional verifier's documented depth bound).",
  "C19": " Extensions: `collect-fee-direct` drives the low-level collect_fee helper from a forwarder-like contract (payer = a user or the contract itself, eager/lazy, model of the token's allowance rules in both directions; decides `user equal to the forwarder` under real authorization); `permissioned-guards` audits forward / enable / disable / sweep_tokens of the permissioned example under six authorization variants.",
  "C20": " The capacity scenarios (5 000 documents, 10 000 bound tokens, each with an update-in-place / re-add at the limit) run in both tiers.",
@@ -127,7 +128,7 @@ def main():
              "kind_free_text": "thorough tier only, supplement: one generic libFuzzer target (stable toolchain + sancov flags, libfuzzer-sys) whose bytes drive the same proptest strategies through the pass-through RNG (locally patched proptest copy in fuzz/vendor) and the same interpreters/oracles; can only add a violation"},
         ],
         "checks": checks,
-        "notes": "Exit codes: 0 held, 1 VIOLATION, 2 inconclusive (build failure, watchdog, starved generator). VERIF_SEED selects the PRNG stream (same seed => same cases). Known findings: /verif/KNOWN_FINDINGS.txt (seven genuine defects were found and repaired by fix: commits in /repo; only `fixed:` lines remain). Sensitivity: selftest/run_sharded.sh (one-line mutants in selftest/mutants, results in selftest/RESULTS.txt) and seeded/ (independently produced changes with demonstrations). DESIGN.md §9 is the implementation record.",
+        "notes": "Exit codes: 0 held, 1 VIOLATION, 2 inconclusive (build failure, watchdog, starved generator). VERIF_SEED selects the PRNG stream (same seed => same cases). Known findings: /verif/KNOWN_FINDINGS.txt (seven genuine defects were found and repaired by fix: commits in /repo; only `fixed:` lines remain). Sensitivity: selftest/run_sharded.sh (one-line mutants in selftest/mutants, results in selftest/RESULTS.txt) seeded/ (independently produced changes with demonstrations), selftest/campaign/ (automatic mutation campaigns) and benign/ (behaviour-preserving refactorings that must stay silent). replays/regress/ is replayed at the start of every run. DESIGN.md §9 is the implementation record.",
         "not_applicable": [{"property_id": p, "reason": PENDING_REASON} for p in ids if p not in CHECKS],
     }
     json.dump(m, open("/verif/MANIFEST.json", "w"), indent=1)
